@@ -66,6 +66,23 @@ func Post(h any, site int32) {
 	}
 }
 
+// Recv performs a channel receive bracketed by Pre/Post. gsinstr replaces every
+// receive expression outside select and range by a call to Recv (or Recv2).
+func Recv[C ~chan E | ~<-chan E, E any](ch C, site int32) E {
+	h := Pre(site, KRecv)
+	v := <-ch
+	Post(h, site)
+	return v
+}
+
+// Recv2 is the two-value form v, ok := <-ch.
+func Recv2[C ~chan E | ~<-chan E, E any](ch C, site int32) (E, bool) {
+	h := Pre(site, KRecv)
+	v, ok := <-ch
+	Post(h, site)
+	return v, ok
+}
+
 // Spawn is called by the parent immediately before a go statement.
 func Spawn(site int32) any {
 	if h := SpawnHook; h != nil {
